@@ -420,8 +420,80 @@ fn hist_strategy(_: &Ctx) -> BoxedStrategy<HistCase> {
         .boxed()
 }
 
+// --- walks with more tags than a 16-bit counter counts ---------------------------------
+
+fn long_walk_ok(n: usize) -> Result<(), String> {
+    // n header-only custom tags, two module tags, the end tag
+    let mut tags: Vec<Vec<u8>> = (0..n).map(|i| mb2_model::encode::tag(0x100 + (i % 7) as u32, &[])).collect();
+    let m = mb2_model::encode::conformant_tag(3, 0x3A, 3, 0);
+    tags.push(m.clone());
+    tags.push(m);
+    let region = mb2_model::encode::mbi(&tags, 0, 0, true);
+    let a = Aligned::new(&region);
+    let base = a.as_ptr() as usize;
+    let r = mb2_model::panics::catch(|| -> Result<(), String> {
+        let mbi = unsafe { multiboot2::BootInformation::load(a.as_ptr().cast()) }.map_err(|e| format!("does not load: {e:?}"))?;
+        let total = n + 3;
+        let mut seen = 0usize;
+        for (i, t) in mbi.tags().enumerate() {
+            let off = t as *const _ as *const u8 as usize - base;
+            let want = if i <= n { 8 + 8 * i } else { 8 + 8 * n + r8(le32(&region, 8 + 8 * n + 4) as usize) * (i - n) };
+            if off != want {
+                return Err(format!("item {i} at offset {off}, the walk has it at {want}"));
+            }
+            seen += 1;
+        }
+        if seen != total {
+            return Err(format!("{seen} tags yielded, the walk has {total}"));
+        }
+        if mbi.tags().count() != total {
+            return Err(format!("count() = {}, the walk has {total} tags", mbi.tags().count()));
+        }
+        for k in [65534usize, 65535, 65536, n, n + 1, n + 2] {
+            if k < total && mbi.tags().nth(k).is_none() {
+                return Err(format!("nth({k}) is None, the walk has {total} tags"));
+            }
+        }
+        let mods = mbi.module_tags().count();
+        if mods != 2 {
+            return Err(format!("module_tags() yields {mods} modules, the walk has 2 (behind {n} other tags)"));
+        }
+        if mbi.tags().last().map(|t| u32::from(t.header().typ)) != Some(0) {
+            return Err("last() is not the end tag".into());
+        }
+        Ok(())
+    });
+    r.unwrap_or_else(|| Err("the walk panicked on a well-formed region".into()))
+}
+
+fn run_long(ctx: &Ctx, rep: &mut SubReport) {
+    for (i, n) in [65533usize, 65534, 65535, 65536, 70000, 131072].into_iter().enumerate() {
+        if !ctx.mine(i as u64) {
+            continue;
+        }
+        rep.evaluations += 1;
+        rep.nontrivial.insert(n as u64);
+        if let Err(m) = long_walk_ok(n) {
+            rep.violations.push(Violation { sub: "long-walks".into(), profile: profile_name().into(), message: format!("well-formed region with {n} header-only tags and two modules: {m}"), case: json!({"n": n}) });
+            return;
+        }
+    }
+    rep.samples.push(json!({"tags": 65536, "expect": "all yielded in place, modules behind them found"}));
+}
+
+fn replay_long(v: &serde_json::Value) -> Result<(), String> {
+    long_walk_ok(v["n"].as_u64().unwrap_or(65536) as usize)
+}
+
 pub fn subs() -> Vec<Box<dyn Sub>> {
     vec![
+        Box::new(LoopSub {
+            name: "long-walks",
+            profiles: Profiles::Both,
+            rule: "well-formed regions that really hold 65533 .. 131072 header-only tags followed by two module tags (0.5 - 1 MB): every tag is yielded at its place, count()/nth() at and around 2^16 and last() agree, module_tags() finds both modules. Non-trivial = every case",
+            run: run_long,
+            replay: replay_long,
+        }),
         Box::new(PropSub::<Case> {
             name: "walk",
             rule: "tags()/module_tags() vs the reference walk (address offsets, stored type/size, payload extent, panic step, stays exhausted). Enumerated: every region of 1..=5 (thorough 6) payload words, DFS over the size word 0..=remaining+9 at each visited offset. Generated: up to 24 tags with tampered size words (all residues mod 8, beyond the region), missing/invalid end tags. Non-trivial = >=2 tags with a size not a multiple of 8, or a walk the model ends in a panic; distinct by region hash",
